@@ -614,3 +614,29 @@ Proof.
   destruct H as (H1 & H2). repeat split; auto.
   intros p bb. now apply dead_step.
 Qed.
+
+(* the way the channel drains an output buffer (channel._flush_some):
+   chunk = get(n); m = send(chunk) <= len(chunk); skip(m, True).
+   The peek changes nothing, the skip never raises, and what is removed is
+   exactly the part of the chunk that was sent. *)
+Theorem flush_pattern limit ovf ops n m ap chunk : Forall live ops ->
+  let o := exec limit ovf o_new ops in
+  snd (step limit ovf o (OGet n false)) = RBytes chunk ->
+  (N.to_nat m <= length chunk)%nat ->
+  fst (step limit ovf o (OGet n false)) = o /\
+  snd (step limit ovf o (OSkip m ap)) = RUnit /\
+  inv (fst (step limit ovf o (OSkip m ap))) /\
+  abs o = firstn (N.to_nat m) chunk ++ abs (fst (step limit ovf o (OSkip m ap))).
+Proof.
+  intros Hl o Hg Hm. destruct (exec_refines limit ovf ops o_new inv_new Hl) as (Hi & _). fold o in Hi.
+  destruct (get_noskip_spec ovf o n Hi) as (b & H1 & H2).
+  unfold step in Hg |- *. rewrite H1 in *. cbn in Hg. injection Hg as ->. cbn [fst].
+  assert (Hp : is_prefix chunk (abs o)) by (destruct H2 as [-> | ->]; [apply q_peek_prefix | apply is_prefix_refl]).
+  destruct Hp as (rest & Hr).
+  assert (Hlen : Z.of_N m <= q_len (abs o)) by (unfold q_len; rewrite Hr, app_length; lia).
+  destruct (skip_ok_spec ovf o m ap Hi Hlen) as (o' & H3 & H4 & H5). rewrite H3. cbn [fst snd lift].
+  repeat split; auto. rewrite H5.
+  replace (firstn (N.to_nat m) chunk) with (firstn (N.to_nat m) (abs o)); [now rewrite firstn_skipn|].
+  rewrite Hr, firstn_app. replace (N.to_nat m - length chunk)%nat with 0%nat by lia.
+  cbn [firstn]. now rewrite app_nil_r.
+Qed.
